@@ -115,6 +115,26 @@ def run(ctx, chk):
                 chk.ob("M-serde/visit_seq", sname, good, "visit_seq must build the struct from successive elements of the fields' own types (no deserialize_with / wrapper / default) and report invalid_length for a missing one", vq[0]["span"])
             else:
                 chk.cannot("M-serde/visit_seq", sname, "visit_seq not found uniquely")
+            vm = [b for b in bio.bodies if b["path"].endswith("::visit_map") and "__Visitor" in b["path"] and sname + "<" in b["path"]]
+            if len(vm) == 1:
+                mp, _ = an.analyse(cfg, vm[0], policy=an.NoInline())
+                ftys = set(f["ty"].replace(" ", "") for f in adt["variants"][0]["fields"])
+                seen = set()
+                for q in mp:
+                    for x in q.calls:
+                        m = re.search(r"MapAccess<'_>>::next_value::<(.*)>$", x[0])
+                        if m:
+                            seen.add(m.group(1).replace(" ", ""))
+                ign = set(t for t in seen if t.endswith("IgnoredAny"))
+                okm = seen - ign == ftys
+                oks = [q for q in mp if q.end == "return" and q.ret[0] == "agg" and q.ret[3] == "Ok"]
+                for q in oks:
+                    st = q.ret[4][0]
+                    okm = okm and st[0] == "agg" and st[1] == adt_path and all(("loopvar" in show(o) or "missing_field" in show(o)) and "efault" not in show(o) for o in st[4])
+                chk.ob("M-serde/visit_map", sname, okm and bool(oks),
+                       "visit_map must read each value as the field's own type (%s) and fill a missing field only through missing_field; value types read: %s" % (sorted(ftys), sorted(seen)), vm[0]["span"])
+            else:
+                chk.cannot("M-serde/visit_map", sname, "visit_map not found uniquely")
             n += 1
         # ---- Cargo feature wiring ----
         try:
